@@ -30,6 +30,18 @@ def litManyShiftCap : Nat := 20
 /-- `-fp.exp + 1 > 65`, `-fp.exp + 1 == 65` -/
 def litZeroShift : Int := 65
 
+/-- the integer literals of `bellerophon` in source order (cf. `Gen.Literals.parse_float_bellerophon_bellerophon`):
+the `2 | 4 | 8 | 16 | 32` of the `debug_assert!`, `fp_zero`/`fp_inf`, `mantissa == 0`, `0x1000` twice, `exponent < 0`,
+`errors = 0`, `leading_zeros() + 1`, `20` twice, `exp: 0`, `errors > 0`, `errors += 1`, `-fp.exp + 1 > 65`, `== 65` -/
+def bellerophonLiterals : List Nat :=
+  [2, 4, 8, 16, 32, 0, 0, 0, 0, litExpCut.toNat, litExpCut.toNat, 0, 0, 1, litManyShiftCap, litManyShiftCap, 0, 0, 1,
+   1, litZeroShift.toNat, 1, litZeroShift.toNat]
+/-- `error_scale` -/
+def errorScaleLiterals : List Nat := [litErrorScale]
+
+example : bellerophonLiterals = [2, 4, 8, 16, 32, 0, 0, 0, 0, 4096, 4096, 0, 0, 1, 20, 20, 0, 0, 1, 1, 65, 1, 65] ∧
+    errorScaleLiterals = [8] := by decide
+
 /-! ## shared.rs rounding -/
 
 /-- `shared::round_nearest_tie_even(fp, shift, cb)`, `0 ≤ shift ≤ 64`;
